@@ -39,7 +39,11 @@ type diffCase struct {
 	Reject bool        `json:"go_rejects,omitempty"`
 }
 
+// diffSpecs lists every registered twin-execution corpus (C18 and C38 reuse them).
+var diffSpecs []*diffSpec
+
 func registerDiff(spec *diffSpec) {
+	diffSpecs = append(diffSpecs, spec)
 	level := spec.Level
 	if level == "" {
 		level = "exploration"
